@@ -22,7 +22,8 @@ Event tokens (no blanks inside; fields separated by `,`):
   m.welcome,<sid>[;acts]       WELCOME delivered and the loop run until idle (what C04/C11 scripts mean by it)
   m.welcome,<sid>,-[;acts]     WELCOME delivered, nothing else          acts = onWelcome!onJoin
   m.goodbye[;acts] m.abort[;acts]   acts = onLeave        m.challenge[;acts]   acts = onChallenge!onLeave
-  m.invocation,<req>,<reg>,<args>,<kwargs>,<0|1>[;acts]     (last field: receive_progress; acts = the endpoint)
+  m.invocation,<req>,<reg>,<args>,<kwargs>,<0|1|f>[;acts]   (last field: the receive_progress detail absent | true |
+                                                            explicitly false; acts = the endpoint)
   fault,<o>.<o>…   o := ok | ser | big | lost | other        outcomes of the next send() calls on reply paths
   resolve,<req>,<ret>   fail,<req>,<exc>   lateprog,<req>,<v>
   ret := n | p | v<val> | c<args>/<kwargs>          exc := r | a<uri>/<args>/<kwargs> | m<uri>/<args> | t<args> | u
@@ -36,8 +37,9 @@ Event tokens (no blanks inside; fields separated by `,`):
   m.event,<sub>,<pub>,<args>,<kwargs>[;acts]       m.invocation,<req>,<reg>  m.interrupt,<req>
   args   := n | a[<v>.<v>…]          kwargs := n | k[<key>=<v>.<key>=<v>…]          snd := ok | fail
   opts   := n | o[<name>=<val>/…]    val := t | f | <nat> | l[<nat>.<nat>…]
-  acts   := <act>!<act>…             act := [n](r[<ret>]|x[<exc>])[~p<v>.<v>…][+<call>…]      call := self | <api event token>
-            n: a lifecycle hook override that does not call the default body; ~p: progress calls of an endpoint
+  acts   := <act>!<act>…             act := [n](r[<ret>]|x[<exc>])[~(p|P)<v>.<v>…][+<call>…]      call := self | <api event token>
+            n: a lifecycle hook override that does not call the default body; ~p / ~P: progress calls of an endpoint
+            (made `if details.progress:` / `if details.progress is not None:` — the same thing to the model)
 -/
 namespace Abverif.Drv.Session
 open Abverif.Session
@@ -197,7 +199,7 @@ def parseHead (s : String) : Option HAct := do
   let (main, prog) ← (match s.splitOn "~" with
     | [m] => some (m, ([] : List Nat))
     | [m, p] => (match p.toList with
-        | 'p' :: _ => (parseList String.toNat? "." (tl p)).map (fun l => (m, l))
+        | 'p' :: _ | 'P' :: _ => (parseList String.toNat? "." (tl p)).map (fun l => (m, l))
         | _ => none)
     | _ => none)
   let (dflt, rest) := (match main.toList with
@@ -244,9 +246,9 @@ def parseMsg (s : String) : Option InMsg :=
       let g ← (if g = "n" then some none else g.toNat?.map some)
       pure (.unregistered (← r.toNat?) g)
   | ["m.event", sb, pb, a, k] => do pure (.event (← sb.toNat?) (← pb.toNat?) (← parsePayload a k))
-  | ["m.invocation", r, g] => do pure (.invocation (← r.toNat?) (← g.toNat?) {} false)
+  | ["m.invocation", r, g] => do pure (.invocation (← r.toNat?) (← g.toNat?) {} none)
   | ["m.invocation", r, g, a, k, rp] => do
-      let rp ← (match rp with | "0" => some false | "1" => some true | _ => none)
+      let rp ← (match rp with | "0" => some none | "1" => some (some true) | "f" => some (some false) | _ => none)
       pure (.invocation (← r.toNat?) (← g.toNat?) (← parsePayload a k) rp)
   | ["m.interrupt", r] => do pure (.interrupt (← r.toNat?))
   | _ => none
